@@ -75,7 +75,7 @@ static void run() {
     uint64_t idx = 0, done = 0; bool failed = false;
     auto emit = [&](const uint8_t* b, unsigned mask, const char* gen) {
         if (failed) return; if ((int)(idx++ % (uint64_t)a.nworkers) != a.worker) return;
-        Case c = buf_case(b, mask, gen); set_current(c); std::string m = oracle(c); done++; if (!m.empty()) { record_failure(c, m); failed = true; }
+        Case c = buf_case(b, mask, gen); set_current(c); std::string m = oracle(c); done++; if (!m.empty() && enum_fail(c, m)) failed = true;
     };
     for (int base = 0; base < 3 && !failed; base++) {
         SplitMix sm(mix64(a.seed * 31 + (uint64_t)base)); model::Seed s; for (auto& x : s.secret) x = (uint8_t)sm.next(); s.secret[18] &= 0x3F; s.birthday = (unsigned)(sm.next() % 1024); s.features = (unsigned)(sm.next() % 32) & 0x17u;
